@@ -14,7 +14,7 @@ class FlowDemux(Device):
     def put(self, packet: Packet):
         self.packets_recevied += 1
         flow_id = packet.flow_id
-        if flow_id < len(self.outs):
+        if 0 <= flow_id < len(self.outs):
             self.outs[flow_id].put(packet)
         else:
             if self.default_out:
@@ -69,7 +69,11 @@ class FIBDemux(Device):
             self.ends[flow_id].put(packet)
         else:
             try:
-                out = self.outs[self._fib[flow_id]]
+                port = self._fib[flow_id]
+                if port < 0:
+                    # a negative index would wrap around to the last outputs
+                    raise IndexError(f"no output port {port}")
+                out = self.outs[port]
             except (KeyError, IndexError, TypeError) as exc:
                 # unknown flow (or no such output): fall back to the default
                 print("FIB Demux Error: " + str(exc))
